@@ -149,13 +149,17 @@ def evaluate(c: Dict[str, Any]) -> Tuple[List[Any], Dict[str, Any]]:
     info = {'short': short, 'moved': moved, 'iters': w.iter,
             'segs': max(len(c['head_segs']) + sum(1 for o in c['c_ops'] if o[0] == 'send'), sum(1 for o in c['o_ops'] if o[0] == 'send'))}
     try:
-        if w.budget_exhausted:
+        partial = w.budget_exhausted
+        if partial:
+            # the iteration budget ran out: nothing can be said about completeness, but the prefix laws (what HAS arrived is a
+            # prefix of what was sent) are safety statements and are decided on what arrived so far
             info['inconclusive'] = True
-            return out, info
-        if w.worker_died:
+            if origin is None:
+                return out, info
+        elif w.worker_died:
             out.append(('worker-died', dict(feat, exc=_exc(w)), w.exceptions[:2], 'executor keeps running'))
             return out, info
-        if origin is None:
+        elif origin is None:
             out.append(('no-upstream-connection', feat, w.connect_log, 'one connect'))
             return out, info
         # ---- upstream -> client
@@ -183,7 +187,7 @@ def evaluate(c: Dict[str, Any]) -> Tuple[List[Any], Dict[str, Any]]:
             # A client that closed or half-closed its side has ended the exchange as far as the proxy is concerned
             # (no listed property promises delivery after that): counted as don't-care, only the prefix law applies.
             client_left_early = client.closed or client.shut
-            if sender_done and reader_alive and len(rest) < len(exp):
+            if sender_done and reader_alive and len(rest) < len(exp) and not partial:
                 if client_left_early:
                     info['dontcare'] = 'client-closed-or-half-closed-before-delivery'
                 else:
@@ -200,7 +204,7 @@ def evaluate(c: Dict[str, Any]) -> Tuple[List[Any], Dict[str, Any]]:
             else:
                 sender_done = client.sent >= len(r['cstream'])
                 origin_left_early = origin.closed or c.get('o_finish') == 'close'
-                if sender_done and not origin_left_early and len(orx) < len(expc):
+                if sender_done and not origin_left_early and len(orx) < len(expc) and not partial:
                     if client.closed or client.shut:
                         # sender closed right after its last byte: delivery of bytes still queued inside the proxy at
                         # that moment is promised by no listed property (C07 covers output to the *client* only)
